@@ -177,6 +177,7 @@ func init() {
 			if !c.Mine(int64(k)) {
 				continue
 			}
+			c.Begin(&Violation{Signature: "fatal crash of the process", Generator: "c07", Input: u.In.B, Env: J{"policy": 0, "opts": u.Opts, "choices": []int{}}})
 			base := h.RunFlatten(u.In.B, u.Opts, h.Env{Policy: mcrt.Asc}, nil)
 			ref := c07Observe(base)
 			c.Execs++
